@@ -917,10 +917,11 @@ func checkInert(c *Ctx) {
 	// scanner acceptance
 	if sc := c.P.Method("filterlist", "RuleScanner", "Scan"); sc != nil {
 		g := NewGate(c.P)
-		g.Inline = inlineOnly()
+		inlIg := []string{}
 		if ig := c.P.Method("filterlist", "RuleScanner", "isIgnored"); ig != nil {
-			g.Pure[FuncName(ig)] = true
+			inlIg = append(inlIg, FuncName(ig)) // the ignore test is expanded: it is stated semantically below
 		}
+		g.Inline = inlineOnly(inlIg...)
 		s := g.Eval(sc)
 		u := g.U
 		bad := "Scan never returns true"
@@ -942,12 +943,19 @@ func checkInert(c *Ctx) {
 					if !u.bdd.Implies(r.Cond, good) {
 						bad = "a line is accepted although NewRule returned nil or an error: the engines would index a nil rule / a rejected line"
 					}
-					ign := false
+					// not ignored: not (scanner ignores cosmetic rules and the rule is a cosmetic rule)
+					var igF, isCos Ref = False, False
 					for _, at := range u.AtomsOf(r.Cond) {
-						if at.Op == "call" && strings.HasSuffix(at.Aux, "isIgnored") && u.bdd.Implies(r.Cond, u.bdd.Not(u.Atom(at))) {
-							ign = true
+						if at.Op == "field" && at.Aux == "ignoreCosmetic" {
+							igF = u.Atom(at)
+						}
+						if u.Mentions(at, func(x *E) bool {
+							return (x.Op == "typeassert" || x.Op == "istype") && strings.Contains(x.Aux, "rules.CosmeticRule") && len(x.Args) > 0 && x.Args[0] == rule
+						}) {
+							isCos = u.Atom(at)
 						}
 					}
+					ign := igF != False && isCos != False && u.bdd.Implies(r.Cond, u.bdd.Not(u.bdd.And(igF, isCos)))
 					if !ign && bad == "" {
 						bad = "ignored rules (cosmetic rules with IgnoreCosmetic) are accepted"
 					}
